@@ -111,7 +111,7 @@ MUTANTS = {
         "send_ignores_done": [("_core.py", "        if self.done:\n            return\n\n        # If no transport is specified", "        # If no transport is specified")],
         "cleanup_timer_not_cancelled": [("_engine.py", "        self._cleanup_timer.cancel()", "        pass")],
         "no_goodbye_on_close": [("asyncio.py", "        await self.async_unregister_all_services()\n        await self.zeroconf._async_close()", "        await self.zeroconf._async_close()")],
-        "goodbye_twice_on_close": [("_core.py", "        for i in range(_REGISTER_BROADCASTS):\n            if i != 0:\n                await asyncio.sleep(millis_to_seconds(_UNREGISTER_TIME))", "        for i in range(2):\n            if i != 0:\n                await asyncio.sleep(millis_to_seconds(_UNREGISTER_TIME))")],
+        "goodbye_twice_on_close": [("_core.py", "        \"\"\"Send the goodbye packet for all services at intervals.\"\"\"\n        for i in range(_REGISTER_BROADCASTS):", "        \"\"\"Send the goodbye packet for all services at intervals.\"\"\"\n        for i in range(2):")],
         "transports_not_closed": [("_engine.py", "        for wrapped_transport in itertools.chain(self.senders, self.readers):\n            wrapped_transport.transport.close()", "        pass")],
         "sync_close_skips_goodbye": [("_core.py", "            else:\n                self.unregister_all_services()", "            else:\n                pass")],
     },
@@ -191,6 +191,6 @@ MUTANTS = {
         "d3_reverted": [("_core.py", "        self.out_delay_queue.async_remove_records(withdrawn)\n", ""), ("_core.py", "        self.out_queue.async_remove_records(withdrawn)\n", "")],
         "goodbye_not_processed_by_browser": [("_services/browser.py", "                    elif pointer.is_expired(now):", "                    elif False:")],
         "responder_ignores_qm_ptr": [("_handlers/query_handler.py", "        if type_ in (_TYPE_PTR, _TYPE_ANY):\n            services = self.registry.async_get_infos_type(question_lower_name)", "        if type_ in (_TYPE_ANY,):\n            services = self.registry.async_get_infos_type(question_lower_name)")],
-        "update_not_announced": [("_core.py", "        self.registry.async_update(info)\n        return asyncio.ensure_future(self._async_broadcast_service(info, _REGISTER_TIME, None))", "        self.registry.async_update(info)\n        return asyncio.ensure_future(asyncio.sleep(0))")],
+        "update_not_announced": [("_core.py", "            self.out_delay_queue.async_remove_records(outdated)\n        return asyncio.ensure_future(self._async_broadcast_service(info, _REGISTER_TIME, None))", "            self.out_delay_queue.async_remove_records(outdated)\n        return asyncio.ensure_future(asyncio.sleep(0))")],
     },
 }
